@@ -103,4 +103,5 @@ if (jcol >= LOCOL && jcol <= HICOL)
 	*bcol = fsupc;
 			 
     } /* if bcol_reg < jcol */
+    SLU_MT_VERIF_EVENT(SLU_EV_BUSY_SNAPSHOT, pnum, jcol, bcol_reg, *bcol, lbusy);
 }
